@@ -259,7 +259,7 @@ Definition find_sink (p : sink_parent) : ty :=
   | PComposite (LSlice e) _ _ => e
   | PComposite (LArray e) _ _ => e
   | PComposite (LMap k v) (Some (true, _)) _ => k
-  | PComposite (LMap k v) _ _ => v
+  | PComposite (LMap k v) (Some (false, _)) _ => v
   | PComposite (LStruct fs) None (Some i) => nth_ty i (map snd fs)
   | PComposite (LStruct fs) (Some (_, name)) _ => match assoc name fs with Some t => t | None => no_sink end
   | PComposite _ _ _ => no_sink
@@ -368,7 +368,7 @@ Definition doc_sinktype_cases : list (string * string) := [
   ("*ast.ReturnStmt", "for i, result := range parent.Results { if astutil.Unparen(result) != e { continue } sig := findContainingFunc(params) if sig == nil { break } return sig.Results().At(i).Type() }");
   ("*ast.IndexExpr", "if astutil.Unparen(parent.Index) == e { switch typ := params.ctx.Types.TypeOf(parent.X).Underlying().(type) { case *types.Map: return typ.Key() case *types.Slice, *types.Array: return nil } }");
   ("*ast.AssignStmt", "if parent.Tok != token.ASSIGN || len(parent.Lhs) != len(parent.Rhs) { break } ;; for i, rhs := range parent.Rhs { if astutil.Unparen(rhs) == e { return params.ctx.Types.TypeOf(parent.Lhs[i]) } }");
-  ("*ast.CompositeLit", "litType := params.ctx.Types.TypeOf(parent).Underlying() ;; if ptr, ok := litType.(*types.Pointer); ok { litType = ptr.Elem().Underlying() } ;; switch typ := litType.(type) { case *types.Slice: return typ.Elem() case *types.Array: return typ.Elem() case *types.Map: if astutil.Unparen(kv.Key) == e { return typ.Key() } return typ.Elem() case *types.Struct: if kv == nil { for i, elt := range parent.Elts { if astutil.Unparen(elt) == e && i < typ.NumFields() { return typ.Field(i).Type() } } break } fieldName, ok := kv.Key.(*ast.Ident) if !ok { break } for i := 0; i < typ.NumFields(); i++ { field := typ.Field(i) if field.Name() == fieldName.String() { return field.Type() } } }");
+  ("*ast.CompositeLit", "litType := params.ctx.Types.TypeOf(parent).Underlying() ;; if ptr, ok := litType.(*types.Pointer); ok { litType = ptr.Elem().Underlying() } ;; switch typ := litType.(type) { case *types.Slice: return typ.Elem() case *types.Array: return typ.Elem() case *types.Map: if kv == nil { break } if astutil.Unparen(kv.Key) == e { return typ.Key() } return typ.Elem() case *types.Struct: if kv == nil { for i, elt := range parent.Elts { if astutil.Unparen(elt) == e && i < typ.NumFields() { return typ.Field(i).Type() } } break } fieldName, ok := kv.Key.(*ast.Ident) if !ok { break } for i := 0; i < typ.NumFields(); i++ { field := typ.Field(i) if field.Name() == fieldName.String() { return field.Type() } } }");
   ("*ast.CallExpr", "funType := params.ctx.Types.TypeOf(parent.Fun) ;; if tv, ok := params.ctx.Types.Types[parent.Fun]; (ok && tv.IsType()) || funType == nil { return funType } ;; switch typ := funType.Underlying().(type) { case *types.Signature: for i, arg := range parent.Args { if astutil.Unparen(arg) != e { continue } isVariadicArg := (i >= typ.Params().Len()-1) && typ.Variadic() if isVariadicArg && !parent.Ellipsis.IsValid() { return typ.Params().At(typ.Params().Len() - 1).Type().(*types.Slice).Elem() } if i < typ.Params().Len() { return typ.Params().At(i).Type() } break } }");
   ("default", "")
 ].
